@@ -114,6 +114,8 @@ Record Good (s : st) (g : list (option nat)) : Prop := mkGood {
   G_xmode : forall r o, r < rlen s -> fr_xattrOf (gref s r) = Some o -> is_dir (fr_mode (gref s r)) = false;
   (** a File-owning fidRef without parent is an attach point: its node is the root of the path tree *)
   G_root : forall r, r < rlen s -> fr_parent (gref s r) = None -> tref s r -> fr_node (gref s r) = 0;
+  (** a live non-fenced fidRef has a non-fenced parent *)
+  G_pnonf : forall r p, r < rlen s -> live s r -> nonf s r -> fr_parent (gref s r) = Some p -> nonf s p;
   G_keys : rkeys s;
   G_len : length g <= rlen s }.
 
